@@ -192,7 +192,6 @@ pub fn run_case(c: &CaseSpec, stats: &mut Stats, relax_starved_skip: bool) -> Re
 			}
 			return Ok(());
 		}
-		Err(_) => return Err("unexpected play error".into()),
 	}
 	let st = match st {
 		Some(s) => s,
